@@ -112,6 +112,18 @@ func runHistory(r *core.Run, cid string, L int) {
 			return
 		}
 	}
+	// every history closes with a few more duplicate deliveries (half of the receives by the relayer that delivered first)
+	for k := 0; k < 4; k++ {
+		l.duplicate()
+	}
+	k := 0
+	for _, p := range s.ReceivedPkts() {
+		if p.Spec.Token != nil && p.AckCode == 0 && k < 6 {
+			// delivered, executed successfully, tokens credited: the retry that would hurt most
+			l.duplicateRecv(p, s.RandRelayer(), true)
+			k++
+		}
+	}
 	// drain: relay everything that is still pending, then re-check
 	for _, p := range s.PendingRecv() {
 		l.recvPkt(p)
@@ -453,9 +465,20 @@ func (l *ledger) duplicate() {
 	if len(recvd) == 0 {
 		return
 	}
-	p := recvd[s.Rng.Intn(len(recvd))]
+	l.duplicateRecv(recvd[s.Rng.Intn(len(recvd))], rel, s.Rng.Intn(2) == 0)
+}
+
+// duplicateRecv delivers an accepted packet to its destination once more, through rel or (sameRelayer) through the relayer
+// that delivered it the first time.
+func (l *ledger) duplicateRecv(p *pkt.Pkt, rel *core.Account, sameRelayer bool) {
+	s := l.s
 	if p.SrcN == nil || p.DstN == nil {
 		return
+	}
+	if first := s.RecvRelayer(p); first != nil && sameRelayer {
+		// a retry by the relayer that delivered the packet: the acknowledgement it would produce is byte-identical to the stored one
+		rel = first
+		l.r.Count("duplicate_recvs_by_the_first_relayer", 1)
 	}
 	ph, err := s.EnsureClient(p.DstN, p.SrcN, rel, s.ProvableHeight(p.SrcN, p.SendBlock))
 	if err != nil {
@@ -473,6 +496,10 @@ func (l *ledger) duplicate() {
 	}
 	o := s.Deliver(p.DstN, rel, "duplicate recv "+p.Key(), msg)
 	l.r.Count(fmt.Sprintf("duplicate_recvs/accepted=%v", o.OK()), 1)
+	if o.OK() {
+		// an accepted duplicate is C01's finding; here it is only counted by what it could have moved
+		l.r.Count(fmt.Sprintf("duplicate_recvs_accepted/token=%v/ack-code-%d/first-relayer=%v", p.Spec.Token != nil, p.AckCode, rel == s.RecvRelayer(p)), 1)
+	}
 	if before != nil {
 		if d := new(big.Int).Sub(l.balance(p.DstN, p.Spec.Token.AddrOn(p.DstN), recvAddr), before); d.Sign() != 0 {
 			l.r.Violation(l.cid, "recv/duplicate-receive-credited-the-receiver-again", map[string]interface{}{"packet": p.Key(), "receiver_delta": d, "accepted": o.OK(), "log": s.Log})
